@@ -34,8 +34,9 @@ MethodFP == ({"sum", "prod"} \X MinCounts) \cup ({"var", "std"} \X Ddofs)
             \cup ({"count", "min", "max", "mean", "first", "last", "idxmin", "idxmax"} \X {0})
 
 \* dropna = <<value, given>>: the semantics (pandas' default is TRUE) and whether the keyword is passed at all
+NoPre == [how |-> "none", on |-> <<>>]
 Base(f, dn, sort, observed) ==
-  [keys |-> f.keys, dropna |-> dn[1], dexp |-> dn[2], sort |-> sort, cats |-> f.cats, observed |-> observed, vcols |-> f.vcols, rows |-> f.rows]
+  [pre |-> NoPre, keys |-> f.keys, dropna |-> dn[1], dexp |-> dn[2], sort |-> sort, cats |-> f.cats, observed |-> observed, vcols |-> f.vcols, rows |-> f.rows]
 Agg(f, dn, sort, observed, form, tgt, funcs) ==
   Base(f, dn, sort, observed) @@ [fam |-> "agg", form |-> form, tgt |-> tgt, funcs |-> funcs]
 Xf(f, dn, observed, op, p, tgt, cols) ==
@@ -72,10 +73,35 @@ XfCasesOf(f, dropna, observed) ==
           : o \in { <<"cumsum", 0>>, <<"cumprod", 0>>, <<"cumcount", 0>>, <<"shift", 1>>, <<"shift", 0 - 1>>, <<"shift", 2>>,
                     <<"ffill", 0>>, <<"bfill", 0>>, <<"tsum", 0>> } }
 
+(* Pre-partitioned sources (non-categorical fills): the frame was hash-shuffled on K' before it is grouped by K = f.keys -
+   K' = K, K' a proper superset (K plus a value column), K' disjoint (a value column), and for two keys K' a proper
+   subset and K' overlapping but incomparable - or is itself the result of a first aggregation by K' = <<k, j>> that is
+   re-grouped by K = <<k>>.  Only order-free operations (a shuffle does not keep row order).                        *)
+WithPre(c, pre) == [c EXCEPT !.pre = pre]
+ShufflePres(f) ==
+  LET K == f.keys  v == f.vcols[1]
+      sh(on) == [how |-> "shuffle", on |-> on]
+  IN { sh(K), sh(K \o <<v>>), sh(<<v>>) } \cup (IF Len(K) = 2 THEN { sh(<<K[1]>>), sh(<<K[2]>>), sh(<<K[1], v>>) } ELSE {})
+PreCasesOf(f, d) ==
+  IF f.cats # <<>> \/ f.rows = <<>> THEN {} ELSE
+  LET one == <<f.vcols[1]>>
+      base ==    { Agg(f, d, 0, TRUE, "method", "frame", OverCols(f.vcols, o, IF o \in {"var", "std"} THEN 1 ELSE 0))
+                   : o \in {"sum", "count", "mean", "var", "max"} }
+            \cup { Agg(f, d, 0, TRUE, "method", "frame", <<Fn("", "size", 0)>>),
+                   Agg(f, d, 0, TRUE, "method", "series", OverCols(one, "nunique", 0)),
+                   Agg(f, d, 1, TRUE, "list", "frame", ListFuncs(f.vcols, <<"sum", "count">>)),
+                   Agg(f, d, 0, TRUE, "dict", "frame", << Fn(f.vcols[1], "min", 0), Fn(f.vcols[1], "std", 1) >>),
+                   Xf(f, d, TRUE, "tsum", 0, "frame", f.vcols) }
+      two  == IF Len(f.keys) < 2 THEN {}
+              ELSE { [Agg(f, d, 0, TRUE, "method", "frame", OverCols(f.vcols, o, 0)) EXCEPT !.keys = <<f.keys[1]>>, !.pre = [how |-> "agg", on |-> f.keys]]
+                     : o \in {"sum", "min", "max"} }
+  IN { WithPre(c, pre) : c \in base, pre \in ShufflePres(f) } \cup two
+
 Dropnas == { <<TRUE, TRUE>>, <<TRUE, FALSE>>, <<FALSE, TRUE>> }
 Observeds(f) == IF f.cats = <<>> THEN {TRUE} ELSE BOOLEAN
 \* the cases of one fill under one (dropna, observed) choice
 CasesOf(f, d, o) == UNION { AggCasesOf(f, d, s, o) : s \in {0, 1, 2} } \cup XfCasesOf(f, d, o)
+                    \cup (IF o THEN PreCasesOf(f, d) ELSE {})
 
 RowCounts   == { Len(f.rows) : f \in Fills }
 LayoutCases == { [fam |-> "layouts", n |-> n] : n \in RowCounts }
@@ -119,12 +145,16 @@ TableShape ==
   (done /\ case.fam \in {"agg", "xf"} /\ ~exp.err) =>
      /\ Len(exp.v) = Len(exp.gk)
      /\ \A i \in DOMAIN exp.v : Len(exp.v[i]) = Len(exp.cl)
-     /\ Judged("agg") => SeqSet(exp.gk) = GroupKeys(case.rows, case.keys, case.dropna, Cats, case.observed)
+     /\ Judged("agg") => SeqSet(exp.gk) = GroupKeys(SourceRows(case), case.keys, case.dropna, Cats, case.observed)
      /\ Judged("xf") => Len(exp.gk) = Len(case.rows)
 
 \* the partial result of a group in one partition, combined over the partitions in which it occurs, is the result
 \* (chunk -> aggregate).  Partials of partitions without a member row / without a valid cell carry no value.
-PartMembers(lay, g) == LET ps == SplitBySizes(case.rows, lay) IN [b \in DOMAIN ps |-> Members(ps[b], case.keys, g)]
+\* (the partitioning is that of the source frame; for the two-stage case the rows the first stage drops are left out)
+\* (the partitioning is that of the source frame; in the two-stage case the rows the first stage drops are left out)
+PartMembers(lay, g) ==
+  LET ps == SplitBySizes(case.rows, lay)
+  IN [b \in DOMAIN ps |-> Members(IF case.pre.how = "agg" THEN SourceRows([case EXCEPT !.rows = ps[b]]) ELSE ps[b], case.keys, g)]
 RSumSeq(s) == LET RECURSIVE RS(_)
                   RS(t) == IF t = <<>> THEN <<0, 1>> ELSE RAdd(Head(t), RS(Tail(t)))
               IN RS(s)
@@ -165,6 +195,19 @@ VarFromSums ==
                s2 == SumSeq([b \in DOMAIN ls |-> SumSq(ls[b])])
                d  == n - case.funcs[j].p
            IN exp.v[i][j] = IF d <= 0 THEN RNaN ELSE RNorm(n * s2 - s * s, n * d)
+
+\* pre-partitioned sources: only order-free operations; a shuffled (= reordered) frame gives the same table; the two-stage
+\* aggregation (by the finer keys first, then by K) gives what the specification says (one grouping of the kept rows)
+PreSane ==
+  (done /\ case.fam \in {"agg", "xf"} /\ case.pre.how # "none" /\ ~exp.err) =>
+     /\ IF case.fam = "agg" THEN \A j \in DOMAIN case.funcs : case.funcs[j].f \in OrderFreeFuncs ELSE case.op = "tsum"
+     /\ (case.pre.how = "shuffle" /\ case.fam = "agg") => AggTable([case EXCEPT !.rows = Reverse(case.rows)]).v = exp.v
+     /\ case.pre.how = "agg" =>
+           LET src  == SourceRows(case)
+               fine == SortedKeys(SeenKeys(src, case.pre.on, case.dropna))
+           IN \A i \in DOMAIN exp.gk : \A j \in DOMAIN case.funcs :
+                 LET mine == SelectSeq(fine, LAMBDA g : SubSeq(g, 1, Len(case.keys)) = exp.gk[i])
+                 IN Combined(case.funcs[j], [q \in DOMAIN mine |-> Members(src, case.pre.on, mine[q])]) = exp.v[i][j]
 
 \* row-shaped operations: rows without a group carry no value; the running sum ends in the group's sum; counts
 \* number the members; a filled value comes from the same group, from the right side
